@@ -71,6 +71,12 @@ def _limit_as():
     resource.setrlimit(resource.RLIMIT_AS, (4 << 30, 4 << 30))
 
 
+def _big_stack():
+    # the extracted Coq list functions recurse once per byte: a 1-2 MiB header needs a deep stack
+    import resource
+    resource.setrlimit(resource.RLIMIT_STACK, (resource.RLIM_INFINITY, resource.RLIM_INFINITY))
+
+
 def sh_(cmd, timeout=120, env=None, cwd=None, limit_mem=False):
     """-> (rc, text); text decoded as latin-1 (the tools print attribute bytes raw); rc -9 = timeout.
     limit_mem: 4 GiB address space (a damaged header can make a serial tool allocate/copy without bound)"""
@@ -79,7 +85,7 @@ def sh_(cmd, timeout=120, env=None, cwd=None, limit_mem=False):
         e.update(env)
     try:
         p = subprocess.run(cmd, stdout=subprocess.PIPE, stderr=subprocess.STDOUT, timeout=timeout, env=e, cwd=cwd,
-                           preexec_fn=_limit_as if limit_mem else None)
+                           preexec_fn=_limit_as if limit_mem else (_big_stack if 'c20_oracle' in os.path.basename(cmd[0]) else None))
         return p.returncode, p.stdout.decode('latin-1')
     except subprocess.TimeoutExpired as ex:
         return -9, (ex.stdout or b'').decode('latin-1') + '\n[timeout]'
@@ -906,7 +912,7 @@ class Tools:
     def __init__(self, d, oracle):
         self.d = d
         self.oracle = oracle
-        for t in ('ncvalidator', 'cdfdiff', 'ncoffsets', 'ncmpidiff', 'ncmpidump', 'ncmpigen', 'pnc_impl'):
+        for t in ('ncvalidator', 'cdfdiff', 'ncoffsets', 'ncmpidiff', 'ncmpidump', 'ncmpigen', 'pnc_impl', 'bighdr'):
             setattr(self, t, os.path.join(d, t))
 
 
@@ -921,14 +927,14 @@ class CaseOut:
 
 
 def odump(T, path):
-    rc, out = sh_([T.oracle, 'dump', path], timeout=120)
+    rc, out = sh_([T.oracle, 'dump', path], timeout=600)
     if rc != 0:
         raise RuntimeError('oracle dump failed on %s: %s' % (path, out[-500:]))
     return parse_dump(out)
 
 
 def oeq(T, a, b):
-    rc, out = sh_([T.oracle, 'eq', a, b], timeout=120)
+    rc, out = sh_([T.oracle, 'eq', a, b], timeout=600)
     t = out.split()
     if rc != 0 or len(t) != 4 or t[0] != 'eq':
         return None
@@ -938,7 +944,7 @@ def oeq(T, a, b):
 def oencode(T, c, layout, path):
     spec = path + '.spec'
     write_spec(c, layout, spec)
-    rc, out = sh_([T.oracle, 'encode', spec, path], timeout=120)
+    rc, out = sh_([T.oracle, 'encode', spec, path], timeout=600)
     if rc != 0 or 'data_ok 1' not in out:
         raise RuntimeError('oracle encode failed: %s' % out[-500:])
     return [int(x) for x in out.split('begins')[1].split()]
@@ -985,7 +991,7 @@ def check_valid_batch(T, co, base, items):
     """tie 1: items = [(path, klass, desc)]; ncvalidator verdict against the oracle's"""
     if not items:
         return
-    rc, out = sh_([T.oracle, 'valid'] + [p for p, _, _ in items], timeout=300)
+    rc, out = sh_([T.oracle, 'valid'] + [p for p, _, _ in items], timeout=900)
     verd = {}
     for l in out.split('\n'):
         t = l.split(' ')
@@ -997,12 +1003,12 @@ def check_valid_batch(T, co, base, items):
             continue
         dec, strict, lay = verd[p]
         want = 'accept' if (dec and strict and lay) else 'reject'
-        if want == 'reject' and klass == 'library-written':
+        if want == 'reject' and klass in ('library-written', 'large-header'):
             co.viol.append(('the library wrote a file that the format oracle rejects (decode=%d strict_valid=%d layout_ok=%d)' %
                             (dec, strict, lay), dict(base, klass=klass, desc=desc, file=open(p, 'rb').read().hex()[:60000]),
                             'library:writes-invalid-file'))
             continue
-        if want == 'reject' and klass in ('tight-layout', 'free-layout'):
+        if want == 'reject' and klass in ('tight-layout', 'free-layout', 'large-header-free-layout'):
             co.viol.append(('encode_with_layout produced a file that file_valid rejects (decode=%d strict_valid=%d layout_ok=%d): '
                             'contradicts encode_with_layout_valid_partial' % (dec, strict, lay), dict(base, klass=klass, desc=desc), None))
             continue
@@ -1377,6 +1383,148 @@ def run_case(T, seed, idx, tier):
     return co
 
 
+# =============================================================================== family "large header"
+# ncvalidator (and cdfdiff, which shares its reader) fetch the header in 1 MiB chunks; a field that does not fit in
+# the rest of the current chunk is re-read from `slack` bytes before the chunk end.  harness/c20_bighdr.c writes, with
+# the real library, a file whose first global attribute is a text attribute of a chosen length, so every later header
+# field can be placed on / across the 1 MiB (2 MiB) file offset.
+MIB = 1 << 20
+BIG_L0 = 1048000
+
+
+def header_fields(P, after):
+    """(kind, offset, size) of every header field that starts at or after file offset `after`"""
+    nn, osz = P['nn'], P['offsz']
+    F = []
+
+    def nm(w, n):
+        F.append((w + '-name-length', n['len_off'], nn))
+        F.append((w + '-name-bytes', n['off'], n['len'] + n['pad']))
+
+    def att(w, a):
+        nm(w, a['name'])
+        F.append((w + '-type', a['type_off'], 4))
+        F.append((w + '-nelems', a['nelems_off'], nn))
+        F.append((w + '-values', a['data_off'], a['data_len'] + a['pad']))
+    for a in P['gatts']:
+        att('gatt', a)
+    for t in P['tags']:
+        F.append((t['kind'] + '-list-tag', t['off'], 4))
+        F.append((t['kind'] + '-list-nelems', t['off'] + 4, nn))
+    for v in P['vars']:
+        nm('var', v['name'])
+        F.append(('var-ndims', v['ndims_off'], nn))
+        for o in v['dimid_offs']:
+            F.append(('var-dimid', o, nn))
+        for a in v['atts']:
+            att('vatt', a)
+        F.append(('var-type', v['type_off'], 4))
+        F.append(('var-vsize', v['vsize_off'], nn))
+        F.append(('var-begin', v['begin_off'], osz))
+    return sorted((f for f in F if f[1] >= after and f[2] > 0), key=lambda f: f[1])
+
+
+def big_plan(T, rng, tier, co):
+    """-> list of (fmt, padlen, boundary, label, full) ; one base file per format gives the field table"""
+    plan = []
+    for fmt in (1, 2, 5):
+        basep = os.path.join(T.d, 'bigbase%d.nc' % fmt)
+        rc, out = mpi(1, T.bighdr, [basep, str(fmt), str(BIG_L0)], timeout=300)
+        if rc != 0:
+            co.viol.append(('the large-header writer failed (format %d, rc %d): %s' % (fmt, rc, out[-300:]), dict(fmt=fmt), None))
+            continue
+        b = open(basep, 'rb').read()
+        P = walk_header(b)
+        pad = P['gatts'][0]
+        pad_end = pad['data_off'] + pad['data_len'] + pad['pad']
+        F = header_fields(P, pad_end)
+        os.remove(basep)
+
+        def label(delta, boundary):
+            tags = []
+            for k, o, n in F:
+                o += delta
+                if o == boundary:
+                    tags.append('at:' + k)
+                elif o < boundary < o + n:
+                    tags.append('straddle(%d):%s' % (boundary - o, k))
+            return ','.join(tags) or 'between'
+        lo = MIB - 8 - P['end']
+        hi = MIB + 8 - pad_end
+        deltas = list(range(lo - lo % 4, hi + 1, 4))
+        if tier == 'quick':
+            # fields of 8 bytes that start 4 bytes before the boundary (the refill-with-slack path), one per kind
+            strad = {}
+            for d_ in deltas:
+                for k, o, n in F:
+                    if n == 8 and o + d_ == MIB - 4:
+                        strad.setdefault(k, d_)
+            kinds = sorted(strad)
+            rng.shuffle(kinds)
+            pick = [strad[k] for k in kinds[:{5: 3, 2: 1, 1: 0}[fmt]]]
+            if 'var-begin' in strad and fmt == 2:
+                pick = [strad['var-begin']]
+            pick.append(rng.choice(deltas))
+            for i, d_ in enumerate(pick):
+                plan.append((fmt, BIG_L0 + d_, MIB, label(d_, MIB), i == 0))
+            if fmt == 5 and kinds:
+                d2 = strad[kinds[-1]] + MIB
+                plan.append((fmt, BIG_L0 + d2, 2 * MIB, label(d2, 2 * MIB), False))
+        else:
+            for i, d_ in enumerate(deltas):
+                plan.append((fmt, BIG_L0 + d_, MIB, label(d_, MIB), i % 9 == fmt))
+            if fmt != 1:
+                d2s = [d_ + MIB for d_ in deltas]
+                rng.shuffle(d2s)
+                for d2 in d2s[:10]:
+                    plan.append((fmt, BIG_L0 + d2, 2 * MIB, label(d2, 2 * MIB), False))
+    return plan
+
+
+def run_bigcase(T, seed, idx, fmt, padlen, boundary, label, full):
+    co = CaseOut()
+    rng = C.SplitMix64(seed * 1000003 + idx * 104729 + 5)
+    d = os.path.join(T.d, 'big%d' % idx)
+    os.makedirs(d, exist_ok=True)
+    A = os.path.join(d, 'big.nc')
+    halign = rng.choice([None, None, '4', '64', '4096'])
+    args = [A, str(fmt), str(padlen)] + ([halign] if halign else [])
+    desc = 'CDF-%d, pad attribute of %d bytes, %d MiB boundary: %s' % (fmt, padlen, boundary // MIB, label)
+    base = dict(case='big%d' % idx, case_seed=seed, family='large-header', script_sha='big:%d:%d' % (fmt, padlen),
+                big=dict(fmt=fmt, padlen=padlen, boundary=boundary, label=label, full=full, idx=idx),
+                script='c20_bighdr ' + ' '.join(args[1:]), features=[])
+    rc, out = mpi(1, T.bighdr, args, timeout=300)
+    if rc != 0 or not os.path.exists(A):
+        co.viol.append(('the large-header writer failed (rc %d): %s' % (rc, out[-300:]), dict(base), None))
+        return co
+    co.stat('family:large-header')
+    co.stat('large-header:format:%d' % fmt)
+    for t in label.split(','):
+        co.stat('large-header:' + t.split(':')[0].split('(')[0] + ':' + (t.split(':')[1] if ':' in t else ''))
+    items = [(A, 'large-header', desc)]
+    if full:
+        c = odump(T, A)
+        if c.info.get('decode') == 1 and c.info.get('data_ok') == 1:
+            Vp = os.path.join(d, 'variant.nc')
+            begins = oencode(T, c, rand_layout(rng, c), Vp)
+            items.append((Vp, 'large-header-free-layout', desc + '; begins %r' % (begins,)))
+            check_diff_pair(T, rng, co, base, A, Vp, 'large-header-layout', desc, rng.range(1, 2))
+            ed = byte_edit(rng, open(A, 'rb').read(), walk_header(open(A, 'rb').read()), c, 'value')
+            if ed is not None:
+                Ep = os.path.join(d, 'edit.nc')
+                open(Ep, 'wb').write(ed[0])
+                check_diff_pair(T, rng, co, base, A, Ep, 'large-header-edit-value', desc + '; ' + ed[1], 1, tag=ed[2])
+            check_dump(T, co, base, A, c, 'large-header', set())
+    check_valid_batch(T, co, base, items)
+    for what, rep, key in co.viol:       # the files are too large for the replay record: drop the hex dumps
+        for k in ('file', 'file_a', 'file_b', 'cdl'):
+            if k in rep and len(rep[k]) > 4000:
+                rep[k] = rep[k][:4000]
+    if not os.environ.get('C20_KEEP'):
+        shutil.rmtree(d, ignore_errors=True)
+    return co
+
+
 # =============================================================================== driver
 def setup_tools(lib, oracle):
     """copy the utilities and the script driver out of the (evictable) library cache"""
@@ -1389,6 +1537,7 @@ def setup_tools(lib, oracle):
         else:
             missing.append(t)
     shutil.copy(S.impl_exe(lib), os.path.join(d, 'pnc_impl'))
+    shutil.copy(C.build_c(lib, [os.path.join(C.VERIF, 'harness', 'c20_bighdr.c')], 'c20_bighdr'), os.path.join(d, 'bighdr'))
     return Tools(d, oracle), missing
 
 
@@ -1417,8 +1566,14 @@ def run(ctx):
     stats = {}
     occ = {}
     case_seed = ctx.rng.next() & 0x7fffffff          # all randomness derives from ctx.rng (VERIF_SEED)
+    pco = CaseOut()
+    plan = big_plan(T, ctx.rng.fork('large-header'), ctx.tier, pco) if os.environ.get('C20_BIG', '1') != '0' else []
     with cf.ThreadPoolExecutor(max_workers=8) as ex:
-        futs = [ex.submit(run_case, T, case_seed, i, ctx.tier) for i in range(ncases)]
+        futs = [ex.submit(run_bigcase, T, case_seed, j, *pl) for j, pl in enumerate(plan)]
+        futs += [ex.submit(run_case, T, case_seed, i, ctx.tier) for i in range(ncases)]
+        done_pco = cf.Future()
+        done_pco.set_result(pco)
+        futs.append(done_pco)
         for i, fu in enumerate(futs):
             try:
                 co = fu.result()
@@ -1446,9 +1601,15 @@ def run(ctx):
                        'ncvalidator on A / oracle re-encodings / ~19 header mutation classes, cdfdiff+ncmpidiff on identical, '
                        'layout (oracle encoder, library alignment variant) and single-edit pairs, ncmpidump+ncoffsets against '
                        'the oracle decode, ncmpidump->ncmpigen round trip. Every expectation is the Coq oracle evaluated on '
-                       'the concrete files. A comparison is non-trivial unless it is a benign-control mutation the oracle rejects.')
+                       'the concrete files. A comparison is non-trivial unless it is a benign-control mutation the oracle rejects. '
+                       'Family large-header: harness/c20_bighdr.c writes files whose header is a little over 1 MiB / 2 MiB (pad text '
+                       'attribute of swept length) so that each kind of later header field (attribute name length/bytes/type/nelems/'
+                       'values, list tag/nelems, variable name, ndims, dimid, type, vsize, begin; CDF-1/2/5) lies on or across the read '
+                       'chunk boundary at every 4-byte shift (thorough: full sweep; quick: 8-byte fields starting 4 bytes before the '
+                       'boundary, one per kind); ncvalidator on all, cdfdiff/ncmpidiff/ncmpidump/ncoffsets/oracle re-encoding on a subset.')
     ctx.cov['distribution'] = dict(sorted(stats.items()))
     ctx.cov['cases'] = ncases
+    ctx.cov['large_header_files'] = len(plan)
 
 
 def replay(ctx, d):
@@ -1462,7 +1623,7 @@ def replay(ctx, d):
         p = os.path.join(w, name)
         open(p, 'wb').write(bytes.fromhex(hx_))
         return p
-    if d.get('tool') in ('cdfdiff', 'ncmpidiff') and len(d.get('file_a', '')) < 60000 and len(d.get('file_b', '')) < 60000 and d.get('file_a'):
+    if not d.get('big') and d.get('tool') in ('cdfdiff', 'ncmpidiff') and len(d.get('file_a', '')) < 60000 and len(d.get('file_b', '')) < 60000 and d.get('file_a'):
         a, b = put('a.nc', d['file_a']), put('b.nc', d['file_b'])
         e = oeq(T, a, b)
         rc, out = mpi(int(d.get('np', 1)), getattr(T, d['tool']), [a, b])
@@ -1472,7 +1633,7 @@ def replay(ctx, d):
         bad = e is None or got != ('same' if e['logical_eq'] else 'differ')
         print('REPLAY: %s' % ('disagreement reproduced' if bad else 'tool and oracle agree now'))
         return 1 if bad else 0
-    if d.get('klass') and d.get('file') and len(d['file']) < 60000:
+    if not d.get('big') and d.get('klass') and d.get('file') and len(d['file']) < 60000:
         p = put('m.nc', d['file'])
         rc, out = sh_([T.oracle, 'valid', p])
         t = out.split()
@@ -1486,7 +1647,11 @@ def replay(ctx, d):
         print(vout[-1500:])
         print('REPLAY: %s' % ('disagreement reproduced' if got != want else 'tool and oracle agree now'))
         return 1 if got != want else 0
-    co = run_case(T, int(d.get('case_seed', ctx.seed)), int(d['case']), d.get('tier', ctx.tier))
+    if d.get('big'):
+        g = d['big']
+        co = run_bigcase(T, int(d.get('case_seed', ctx.seed)), g['idx'], g['fmt'], g['padlen'], g['boundary'], g['label'], True)
+    else:
+        co = run_case(T, int(d.get('case_seed', ctx.seed)), int(d['case']), d.get('tier', ctx.tier))
     hit = [x for x in co.viol if x[2] == d.get('key')]
     for what, rep, key in co.viol:
         print('REPLAY:', key, what[:300])
